@@ -69,6 +69,21 @@ static inline StringSet catalogue_set(uint32_t idx, int max_n) {
   return s;
 }
 
+// large sets of short strings (cold-start runs of the parallel build: hash tables beyond 1024 cells)
+static inline StringSet catalogue_big(uint32_t idx) {
+  Prng r; r.seed(mix64(CATALOGUE_SEED ^ 0xb16, idx));
+  StringSet s; s.alpha = 26; s.lenprof = 0; s.freqprof = (int)(idx % 3);
+  static const int ns[] = {2600, 3400, 4300, 6000};
+  int n = ns[idx % 4];
+  s.v.reserve((size_t)n + 16);
+  while ((int)s.v.size() < n) {
+    for (int k = 0; k < n; k++) { std::string t; int L = (int)r.range(4, 9); for (int i = 0; i < L; i++) t += (char)gen_sym(r, 26, s.freqprof); s.v.push_back(t); }
+    std::sort(s.v.begin(), s.v.end(), ubyte_less);
+    s.v.erase(std::unique(s.v.begin(), s.v.end()), s.v.end());
+  }
+  return s;
+}
+
 // one NUL-separated buffer, allocated with new[] (IteratorDictStringPlain deletes it), `extra` spare NUL bytes
 static inline unsigned char *flatten(const std::vector<std::string> &v, size_t *len, size_t extra = 1) {
   size_t t = 0; for (auto &s : v) t += s.size() + 1;
